@@ -103,6 +103,9 @@ class SpecMixin(object):
       k = base.ty.kind
       if k == 'dict':
         vt = base.ty.args[1] if len(base.ty.args) > 1 else ANY
+        if getattr(self, 'comp_defined', None) is not None:
+          # element expression of a comprehension: d[k] raises KeyError unless k is a key (collected, see comp_to_seq)
+          self.comp_defined.append(heap_of(base, cx).dom(base.t, to_u(idx, cx)))
         return from_u(heap_of(base, cx).val(base.t, to_u(idx, cx)), vt, cx)
       if k in ('list', 'vtuple'):
         if not isinstance(idx, VInt):
@@ -693,6 +696,10 @@ class SpecMixin(object):
 
   def class_name_of(self, node, cx):
     if isinstance(node, ast.Name):
+      mod = getattr(getattr(self, 'cur_mod', None), 'name', None)
+      if mod is not None:
+        # a class of the current module declared in the sidecar under another name (pyname)
+        return self.world.class_for(mod, node.id)
       return node.id
     if isinstance(node, ast.Attribute):
       return node.attr
